@@ -32,6 +32,7 @@ mod htlc_manager {
 mod world;
 mod sim;
 mod cmd_system;
+mod cmd_provider;
 mod cmd_classify;
 
 mod cmd_tlv;
@@ -46,6 +47,7 @@ fn main() {
         "fee" => cmd_fee::run(),
         "classify" => cmd_classify::run(),
         "system" => cmd_system::run(),
+        "provider" => cmd_provider::run(),
         "mode" => println!("{}", if cfg!(debug_assertions) { "checked" } else { "wrapping" }),
         _ => {
             eprintln!("usage: tramp-harness <tlv|fee|mode>");
